@@ -1,3 +1,4 @@
+import glob
 import json
 import logging
 from pathlib import Path
@@ -24,7 +25,8 @@ def _get_companion_file(sglx_file, pattern='.meta'):
     sglx_file = Path(sglx_file)
     companion_file = sglx_file.with_suffix(pattern)
     if not companion_file.exists():
-        search_pattern = f"{one.alf.path.remove_uuid_string(sglx_file).stem}*{pattern}"
+        # the name is literal text, not a pattern: brackets and the like in a run name must not be read as wildcards
+        search_pattern = f"{glob.escape(one.alf.path.remove_uuid_string(sglx_file).stem)}*{pattern}"
         companion_file = next(sglx_file.parent.glob(search_pattern), companion_file)
     return companion_file
 
